@@ -375,15 +375,20 @@ func body(c *runner.Ctx, slow bool) {
 	w.checkFresh(c)
 	w.checkCleanupLive(c)
 
-	// stop everything; every registered resource must be cleaned exactly once
+	// stop everything; every registered resource must be cleaned exactly once.
+	// Stop is called from helper tasks: the main task never waits unboundedly
+	// on the system under test.
 	for _, r := range w.rrs {
 		if !r.stopCalled {
+			r := r
 			r.stopCalled = true
-			r.r.Stop()
-			r.stopped = true
-			if r.inRun > 0 {
-				c.ViolateFor("C04", "stop-returned-during-run", "rerunner %d: Stop returned while an invocation is in progress", r.j)
-			}
+			go func() {
+				r.r.Stop()
+				r.stopped = true
+				if r.inRun > 0 {
+					c.ViolateFor("C04", "stop-returned-during-run", "rerunner %d: Stop returned while an invocation is in progress", r.j)
+				}
+			}()
 		}
 	}
 	w.settle(10 * time.Second)
